@@ -30,7 +30,7 @@ type ballot struct {
 type decision struct {
 	kind string // setConfig alphabetUpdate cheque candidateRemove
 	id   []byte
-	args []any  // contract arguments (the id's arguments are a function of the id)
+	args []any // contract arguments (the id's arguments are a function of the id)
 	desc string
 	// effect parameters
 	cfgKey, cfgVal []byte
